@@ -39,10 +39,29 @@ IMPLICIT_RAISES = {
     "json5.load": [("RecursionError", "pure-Python recursive descent, about 20 frames per nesting level ('[' x 62)")],
     "plistlib.load": [("IndexError", "_PlistParser.end_key/add_object read self.stack[-1]; a <key> or value outside any container leaves the stack empty"),
                       ("AttributeError", "_date_from_string calls .groupdict() on the result of a regex match that is None for a malformed <date>")],
-    "xml.etree.ElementTree.parse": [("LookupError", "an unknown encoding name in the XML declaration (pyexpat looks the codec up)"),
-                                    ("ValueError", "a multi-byte encoding such as shift_jis in the XML declaration is refused by pyexpat")],
+    "xml.etree.ElementTree.parse": [],
     "yaml.load_all": [],
 }
+# Implicit raises belong to the parsing *engine*, not to the entry point that happens to drive it: every library module that
+# creates a pyexpat parser (ParserCreate) hands the document's own encoding declaration to pyexpat.  Which entries do is read
+# from the library source on every run (ENGINE_MODULES names the module to read), so a sibling entry cannot be forgotten.
+PYEXPAT_IMPLICIT = [("LookupError", "an unknown encoding name in the XML declaration (pyexpat looks the codec up; `encoding=\"UTF-9\"`)"),
+                    ("ValueError", "a multi-byte encoding such as shift_jis in the XML declaration is refused by pyexpat")]
+ENGINE_MODULES = {"xml.etree.ElementTree.parse": "xml.etree.ElementTree", "plistlib.load": "plistlib"}
+
+
+def drives_pyexpat(entry):
+    mod = ENGINE_MODULES.get(entry)
+    if mod is None:
+        return False
+    src = extlib.source_of(mod)
+    if src is None:
+        return True         # cannot read the library: assume the worst
+    with open(src, encoding="utf-8") as fh:
+        tree = ast.parse(fh.read(), src)
+    return any(isinstance(c, ast.Call) and (call_name(c) or "").rsplit(".", 1)[-1] == "ParserCreate" for c in ast.walk(tree))
+
+
 SAFE_HANDLER_CALLS = {"os.path.basename", "str", "repr", "type", "len"}
 
 
@@ -159,6 +178,9 @@ def raise_set(entry):
     import builtins
     for nm, why in IMPLICIT_RAISES.get(entry, []):
         out.append((nm, getattr(builtins, nm), "implicit (frozen table): " + why))
+    if drives_pyexpat(entry):
+        for nm, why in PYEXPAT_IMPLICIT:
+            out.append((nm, getattr(builtins, nm), f"implicit (pyexpat, created by {ENGINE_MODULES[entry]}): " + why))
     if "scan" in spec:
         mods, entries = spec["scan"]
         raised, reached = extlib.explicit_raises(mods, entries)
